@@ -690,6 +690,15 @@ class Bubble(monoidal.Bubble, Box):
         self.func = func
         super().__init__(inside, **params)
 
+    def subs(self, *args):
+        return Bubble(self.inside.subs(*args), func=self.func,
+                      drawing_name=self.drawing_name)
+
+    def lambdify(self, *symbols, **kwargs):
+        return lambda *xs: Bubble(
+            self.inside.lambdify(*symbols, **kwargs)(*xs), func=self.func,
+            drawing_name=self.drawing_name)
+
     def grad(self, var, **params):
         """
         The gradient of a bubble is given by the chain rule.
